@@ -1,4 +1,5 @@
-Require Import QtlVerif.AmalgamDefs.
+Require Import QtlVerif.AmalgamDefs QtlVerif.AmalgamCondDefs.
 Require Extraction.
 Require Import ExtrOcamlBasic.
-Extraction "amalgam_model.ml" expand finish generate sources emitted included starved met.
+Extraction "amalgam_model.ml" expand finish generate sources emitted included starved met
+  run_tu branches confined mentioned_nonk bad taken too_deep.
